@@ -419,7 +419,19 @@ Proof.
   intros o Ho. rewrite forallb_forall in H2. apply omi_eqb_eq. apply H2. apply in_all_mi. exact Ho.
 Qed.
 
-Lemma family_3_ok : family_ok 3 = true.
+Lemma family_ok_on_spec shapes depth :
+  family_ok_on shapes depth = true ->
+  forall sh ents, In sh shapes -> In ents (tuples depth sh) ->
+  sel_agree (ref_getitem sh ents) (np_getitem sh ents) = true.
+Proof.
+  unfold family_ok_on. intros H sh ents Hs He.
+  rewrite forallb_forall in H. specialize (H sh Hs).
+  rewrite forallb_forall in H. exact (H ents He).
+Qed.
+
+Lemma family_3_ok : family_ok_on family_shapes 3 = true.
+Proof. vm_compute. reflexivity. Qed.
+Lemma family_4_ok : family_ok_on family_shapes12 4 = true.
 Proof. vm_compute. reflexivity. Qed.
 
 Theorem multi_array_bounded sh ents :
@@ -430,14 +442,9 @@ Theorem multi_array_bounded sh ents :
   | _, _ => False
   end.
 Proof.
-  intros Hs He. apply sel_agree_spec.
-  pose proof family_3_ok as H. unfold family_ok, family_ok_on in H.
-  rewrite forallb_forall in H. specialize (H sh Hs).
-  rewrite forallb_forall in H. exact (H ents He).
+  intros Hs He.
+  exact (sel_agree_spec _ _ (family_ok_on_spec family_shapes 3 family_3_ok sh ents Hs He)).
 Qed.
-
-Lemma family_4_ok : family_ok_on family_shapes12 4 = true.
-Proof. vm_compute. reflexivity. Qed.
 
 Theorem multi_array_bounded4 sh ents :
   In sh family_shapes12 -> In ents (tuples 4 sh) ->
@@ -447,8 +454,6 @@ Theorem multi_array_bounded4 sh ents :
   | _, _ => False
   end.
 Proof.
-  intros Hs He. apply sel_agree_spec.
-  pose proof family_4_ok as H. unfold family_ok_on in H.
-  rewrite forallb_forall in H. specialize (H sh Hs).
-  rewrite forallb_forall in H. exact (H ents He).
+  intros Hs He.
+  exact (sel_agree_spec _ _ (family_ok_on_spec family_shapes12 4 family_4_ok sh ents Hs He)).
 Qed.
